@@ -663,10 +663,12 @@ PROPS.update({
     "C04": {
         "domain": "crash",
         "proof_module": "FoyerProofs.C04",
-        "extra_modules": ["FoyerProofs.C01", "FoyerProofs.C07"],
+        "extra_modules": ["FoyerProofs.C01", "FoyerProofs.C07", "FoyerProofs.C04Crash"],
         "theorems": ["Foyer.Blk.scan_subset", "Foyer.Blk.recoverBlock_subset", "Foyer.Blk.guardSeq_subset",
                      "Foyer.Hyb.recovery_picks_latest", "Foyer.Hyb.recovery_honours_tombstones",
-                     "Foyer.Blk.recover_reads_back", "Foyer.Blk.scan_reads_back"],
+                     "Foyer.Blk.recover_reads_back", "Foyer.Blk.scan_reads_back",
+                     "Foyer.Hyb.recovery_monotone", "Foyer.Hyb.recovery_complete", "Foyer.Hyb.crash_recovers_written",
+                     "Foyer.Hyb.crash_acked_or_newer", "Foyer.Hyb.crash_delete_survives"],
         "monitor_props": ["C04"],
         "reject_is_fail_fields": [],
         "campaigns": {
